@@ -312,4 +312,11 @@ def _findpoly_rounded_powers_ok(inp):
     return inp.get("rounded_powers_ok") is True
 
 
+
+@predicate("nsum_levin_zero_weight")
+def _nsum_levin_zero_weight(inp):
+    """C27: doubly infinite / multi-series nsum with method='levin' aborts with ValueError('levin: zero weight')"""
+    return inp.get("method") == "levin" and str(inp.get("outcome", "")).startswith("raised ValueError: levin: zero weight")
+
+
 import special_findings  # noqa: E402  (C18/C19/C22 predicates; must stay at the end of this file)
